@@ -11,8 +11,10 @@ replaced by a violation, swallowed into a verdict nor remembered on the next cal
 with a healthy stub.
 
 Monitored half (input driven; the simulator adds generator and replay only): for a
-pool of valid, unsupported, malformed, unhashable and non-hint objects passed as
-hints to @beartype, is_bearable, die_if_unbearable, TypeHint and is_subhint every
+pool and a grammar (sim/hintjunk.py) of valid, exotic, unsupported, malformed,
+unhashable, huge and non-hint objects passed as hints - under four configurations,
+each operation performed twice - to @beartype, is_bearable, die_if_unbearable,
+TypeHint (and its methods) and is_subhint every
 escaping exception is a public beartype.roar exception (decoration-time: Decor
 family, call-time: Call family), never a bare TypeError/AttributeError/KeyError/
 RecursionError nor an underscore-prefixed internal class; warnings are BeartypeWarning.
@@ -24,8 +26,12 @@ from sim import entry, kernel
 ID = 'C11'
 BATCH = True
 RULE = ('fault half: seeded (callback site, hint shape around it, exception class, invocation number n in 1..3, entry point, '
-        'object conforming or violating); monitored half: seeded (bad-hint factory x API). Non-trivial = a fault actually fired '
-        'inside a beartype frame, or a malformed hint raised; distinct = distinct (site, shape, class, n, entry) / (hint, api) tuples')
+        'object conforming or violating); monitored half: (a) 28 named bad-hint factories x 7 APIs, (b) grammar mode: a seeded '
+        'tree of 0-3 levels over 50 hint constructors and 125 atoms (ordinary classes, protocols of every kind, typing specials, '
+        'PEP 695 aliases, references, non-hint values, unhashable values, hints of 100+ levels / 128+ children) x 9 API routes x '
+        '25 checked objects x 4 configurations (default, numeric tower, hint_overrides, warning mode), every operation performed '
+        'twice with a freshly built hint. Non-trivial = a fault actually fired inside a beartype frame, or a hint made the API '
+        'raise; distinct = distinct (site, shape, class, n, entry) / (hint, api) / (hint tree, api, object, configuration) tuples')
 INTERLEAVING_MEASURE = 'distinct fault placements (site, hint shape, exception class, invocation number, entry point)'
 COMPONENTS = {
     'real': ['beartype fast path, explanation path, decorator wrappers, hint validation (from /repo working tree)'],
